@@ -18,6 +18,17 @@ def fingerprint(v, depth=0):
         return f"Logger:{v.name}:disabled={v.disabled}:level={v.level}:propagate={v.propagate}:handlers={len(v.handlers)}"
     if isinstance(v, (str, int, float, bool, bytes, type(None))):
         return repr(v)[:200]
+    if isinstance(v, type) and depth == 0 and str(getattr(v, "__module__", "")).startswith("chartparse"):
+        # a class of the package: its own plain-data class attributes belong to "the same object" (a class whose constants depend on
+        # which module was imported first is not the same class)
+        own = []
+        for a, x in sorted(vars(v).items()):
+            if a.startswith("__") or isinstance(x, (types.FunctionType, classmethod, staticmethod, property, type)):
+                continue
+            fp = fingerprint(x, 1)
+            if fp is not None:
+                own.append([a, fp])
+        return [f"{v.__module__}.{v.__qualname__}", own]
     if isinstance(v, (type, types.FunctionType, types.BuiltinFunctionType)):
         return f"{getattr(v, '__module__', '?')}.{getattr(v, '__qualname__', '?')}"
     if isinstance(v, types.ModuleType):
@@ -58,6 +69,21 @@ def main() -> None:
                 exec(f"from {full} import {name}", {})
             else:
                 raise RuntimeError(f"unknown form {form}")
+            # the statement succeeded — did it bind the package's module / the module's own object?
+            real = sys.modules.get(full)
+            if form == "from_pkg":
+                ns = {}
+                exec(f"from chartparse import {mod}", ns)
+                if ns[mod] is not real:
+                    raise ImportError(f"'from chartparse import {mod}' bound {ns[mod]!r}, not the module chartparse.{mod}")
+            if form in ("import", "importlib") and getattr(sys.modules.get("chartparse"), mod, None) is not real:
+                raise ImportError(f"after importing it, the attribute chartparse.{mod} is {getattr(sys.modules.get('chartparse'), mod, None)!r}, "
+                                  f"not the module chartparse.{mod}")
+            if form == "from_mod":
+                ns = {}
+                exec(f"from {full} import {name}", ns)
+                if ns[name] is not getattr(real, name, None):
+                    raise ImportError(f"'from {full} import {name}' bound another object than {full}.{name}")
         except BaseException as e:  # noqa
             failed = {"step": i, "form": form, "module": mod, "name": name,
                       "exc": type(e).__name__, "msg": str(e)[:300]}
